@@ -27,6 +27,12 @@ pub proof fn axiom_path_of_injective(dir: VxPath, h1: MerkleHash, h2: MerkleHash
 // records (file and xorb entries, as abstract ids) of the shard whose content hash is `h`, and of a serialized shard
 pub uninterp spec fn recs_of(h: MerkleHash) -> Set<int>;
 pub uninterp spec fn data_recs(bytes: Seq<u8>) -> Set<int>;
+// merklehash::compute_data_hash (the name HashedWrite derives for what was written)
+pub uninterp spec fn data_hash(bytes: Seq<u8>) -> MerkleHash;
+// the complete file with these bytes now stands under `p`; no other file of the final-name view changed
+pub open spec fn written(a: VxFs, b: VxFs, p: VxPath, bytes: Seq<u8>) -> bool {
+    b.exists@ == a.exists@.insert(p) && b.content@ == a.content@.insert(p, data_recs(bytes))
+}
 pub struct MDBShardError;
 pub type Result<T> = std::result::Result<T, MDBShardError>;
 
@@ -97,17 +103,25 @@ impl VxFs {
             r is Err ==> final(self).exists@ == old(self).exists@ && final(self).removed@ == old(self).removed@,
     { unimplemented!() }
     // MDBShardFile::write_out_from_reader: writes the bytes to a temp file, renames it to its content-hash name, loads it.
-    // Final-name view: on success exactly one file appears (or is replaced by identical content); on failure nothing changes.
+    // This is the contract PROVED for the real function in U-SHWRITEOUT, restated in this unit's final-name view
+    // (`path_of(dir, h)` = abs(dir / shard_name(h)); `exists`/`content` = the hash-named files and the records of their bytes):
+    //   Ok(f):  f.shard_hash = data_hash(bytes), f.path = path_of(dir, f.shard_hash), the file f.path EXISTS and holds exactly the bytes,
+    //           no other hash-named file appears, disappears or changes;
+    //   Err:    nothing changes in the final-name view, or the only change is that the complete file stands under its hash name
+    //           (a failure of the final load comes after the rename).
+    // ASSUMED on top of it: `recs_of(data_hash(b)) == data_recs(b)` (the records of "the shard with hash h" are those of the bytes hashing
+    // to h: no hash collision), and ci(final) (follows with lemma_write_keeps_ci when a file already standing under that hash name holds
+    // the same records - again no collision).
     #[verifier::external_body]
     fn write_out_from_reader(&mut self, target_directory: &VxPath, reader: &mut VxCursor) -> (r: Result<Arc<MDBShardFile>>)
         requires /*@C19,C10*/ ci(*old(self)),
         ensures
             final(self).removed@ == old(self).removed@, final(self).need@ == old(self).need@, ci(*final(self)),
-            r matches Ok(f) ==> f.path == path_of(*target_directory, f.shard_hash)
-                && recs_of(f.shard_hash) == data_recs(old(reader).data@)
-                && final(self).exists@ == old(self).exists@.insert(f.path)
-                && final(self).content@ == old(self).content@.insert(f.path, data_recs(old(reader).data@)),
-            r is Err ==> final(self).exists@ == old(self).exists@ && final(self).content@ == old(self).content@,
+            recs_of(data_hash(old(reader).data@)) == data_recs(old(reader).data@),
+            r matches Ok(f) ==> f.shard_hash == data_hash(old(reader).data@) && f.path == path_of(*target_directory, f.shard_hash)
+                && written(*old(self), *final(self), f.path, old(reader).data@),
+            r is Err ==> (final(self).exists@ == old(self).exists@ && final(self).content@ == old(self).content@)
+                || written(*old(self), *final(self), path_of(*target_directory, data_hash(old(reader).data@)), old(reader).data@),
     { unimplemented!() }
     // MDBShardFile::load_all_valid: handles of the hash-named shard files present in the directory, each file once; the file
     // under a hash name holds the shard with that hash (C10's "names equal their content hash", as an input fact)
